@@ -1,0 +1,8 @@
+//go:build !verif
+
+// Package verifgate is the verification hook of the pipeline; without the
+// build tag "verif" Gate is a no-op.
+package verifgate
+
+// Gate does nothing in normal builds.
+func Gate(op string, args ...any) error { return nil }
